@@ -210,6 +210,24 @@ class KnownFindings:
 # ----------------------------------------------------------------------------------------------
 # Check context: evidence, replay, verdict
 # ----------------------------------------------------------------------------------------------
+# which sections of Properties/ConstsTie/S<k>.lean hold copies used by which property's models (see the header of Properties/ConstsTie.lean)
+CONSTS_SECTIONS = {"C01": [0, 1, 2, 3], "C08": [0, 1, 2, 3], "C14": [0, 1, 2, 3, 5], "C11": [1, 4], "C15": [1, 4], "C02": [5], "C03": [5], "C09": [6], "C07": [6, 9], "C10": [7],
+                   "C17": [8], "C04": [9], "C05": [9], "C06": [9], "C19": [9]}
+CONSTS_THEOREMS = {
+    0: ["gen_forms_strs", "gen_forms_scalars"], 1: ["source_tokens_structure"],
+    2: ["doc_announceVariants_tie", "doc_noneStr_tie", "doc_tab_tie", "doc_simpleTypes_tie", "simpleTypes_otherKeys_pinned", "doc_noneTypes_tie", "doc_defaultsTo_tie",
+        "doc_allRestTokens_tie", "doc_restTokens_tie", "doc_argToken_returnToken_tie", "doc_lineLength_pinned", "doc_tyName_tie"],
+    3: ["docgn_restTokensAll_tie", "docgn_googleTokensAll_tie", "docgn_argTok_retTok_tie", "docgn_simpleDefault_tie", "docgn_evalKnown_tie"],
+    4: ["docutils_restTokens_tie", "docutils_googleTokens_tie", "docutils_numpySet_tie", "docutils_tokensSet_perm_tie", "docutils_raises_pinned"],
+    5: ["iface_NoneStr_tie", "iface_simpleTypes_tie", "iface_zeroOf_tie", "iface_noneTypes_tie", "iface_requiredLower_tie", "iface_fallbackTyp_pinned"],
+    6: ["cst_contains2statement_tie", "cst_augassign_perm_tie", "cst_mathOperators_perm_tie", "cst_multicontains_pinned"],
+    7: ["merge_simpleTypes_tie", "merge_noneTypes_tie"],
+    8: ["adhoc_adhocTypeToType_tie", "adhoc_typeToName_tie", "adhoc_simpleTypes_tie", "adhoc_tuple3ToType_tie", "adhoc_tuple3ToCollection_tie", "adhoc_kwlist_tie"],
+    9: ["emitiface_noneStr_tie", "emitiface_simpleTypes_tie", "emitiface_requiredTyps_tie", "sql_NoneStr_tie", "jsonschema_noneStr_tie", "doctranscst_noneStr_tie",
+        "genimports_noneStr_tie", "genimports_pyKeywords_tie"],
+}
+
+
 class Check:
     def __init__(self, prop: str, tier: str, seed: int):
         self.prop, self.tier, self.seed = prop, tier, seed
@@ -240,6 +258,9 @@ class Check:
 
     def lean(self, module: str, theorems: list[str], extra_targets: list[str] | None = None, checker: bool | None = None):
         """Build the property module (+ driver), audit it, register one obligation per theorem."""
+        if not getattr(self, "_consts_done", False):
+            self._consts_done = True
+            self.consts_tie()
         targets = [module] + (extra_targets or [])
         self.checker_cmd = "cd /verif/lean && lake build %s cdd_model && lake env lean .audit/Audit_%s.lean  # #print axioms" % (" ".join(targets), self.prop)
         # (1) the property's own modules: a failure here is a broken proof obligation
@@ -298,6 +319,53 @@ class Check:
             self.checker_cmd += " && lake env leanchecker %s" % " ".join(mods)
             self.oblige("leanchecker %s" % " ".join(mods), "recheck", okc, outc)
         return True
+
+    def consts_tie(self):
+        """Constants tie: regenerate Gen/Consts.lean from the repository under test (values of the module-level constants the models copy) and re-check the tie
+        theorems `Gen.Consts.x = <model constant>` of the sections this property's models depend on.  A constant that moved in the source is a broken obligation
+        of exactly the properties whose model copies it; the check then searches for a failing input as usual."""
+        secs = CONSTS_SECTIONS.get(self.prop)
+        if not secs:
+            return
+        from harness.translators import consts
+
+        # one table for all properties: runs against different checkouts (CDD_REPO) must not interleave between regeneration and audit
+        clock = open(LEAN / ".consts.lock", "w")
+        fcntl.flock(clock, fcntl.LOCK_EX)
+        try:
+            self._consts_tie_locked(secs, consts)
+        finally:
+            clock.close()
+
+    def _consts_tie_locked(self, secs, consts):
+        try:
+            consts.regen(REPO)
+        except Exception as e:  # noqa
+            # the constants cannot even be read (a table was removed or renamed): the copies in the models are no longer tied to anything
+            for k in secs:
+                for t in CONSTS_THEOREMS[k]:
+                    self.oblige("ConstsTie." + t, "theorem", False, "constants could not be read from the source: %s" % str(e)[-400:])
+            return
+        for k in secs:
+            mod = "CddVerif.Properties.ConstsTie.S%d" % k
+            ok, log = lake_build([mod])
+            if not ok and re.search(r"exited with code (137|139|143|-9)|[Kk]illed|[Oo]ut of memory|Cannot allocate memory|resource temporarily unavailable", log):
+                raise HarnessError("lake build was interrupted by the machine: %s" % log[-400:])
+            names = ["ConstsTie." + t for t in CONSTS_THEOREMS[k]]
+            if not ok:
+                bad = set(re.findall(r"ConstsTie/S%d\.lean:(\d+):" % k, log))
+                for t in names:
+                    self.oblige(t, "theorem", False, "constants tie section %d does not build against the regenerated Gen/Consts.lean (error lines %s): %s" % (k, sorted(bad)[:6], log[-1200:]))
+                continue
+            ax = print_axioms(mod, names, self.prop + "_consts")
+            for t in names:
+                a = ax.get(t)
+                if a is None:
+                    raise HarnessError("axiom audit did not complete for %s: %s" % (t, LAST_AUDIT["out"][-400:]))
+                self.oblige(t, "theorem", not (set(a) - STD_AXIOMS), "axioms: %s" % (a,))
+        self.trusted_base.append("constants tie: harness/translators/consts.py reads the VALUES of the module-level constants the models copy (by importing the modules of the repository "
+                                 "under test in a subprocess) into Gen/Consts.lean on every run; Properties/ConstsTie/S*.lean prove by evaluation that each model constant equals the value "
+                                 "read (sections %s for this property); inline literals of the models without a named source constant are tied only where a `_pinned` theorem exists" % secs)
 
     # -- exploration accounting ---------------------------------------------------------------
     def count(self, key, nontrivial: bool = True):
